@@ -901,10 +901,11 @@ func (g *rlGen) history(nops int) {
 
 func init() {
 	Register(Engine{
-		Name:    "ratelimit",
-		Props:   []string{"C41"},
-		New:     func() Executor { return newRlExec() },
-		Monitor: rlMonitor,
+		Name:       "ratelimit",
+		MaxMonitor: 100000,
+		Props:      []string{"C41"},
+		New:        func() Executor { return newRlExec() },
+		Monitor:    rlMonitor,
 		Gen: func(r *Rng, n int, do func(M) any) {
 			g := &rlGen{r: r, do: do}
 			for i := 0; i < n; i++ {
